@@ -1,6 +1,6 @@
 ------------------------------ MODULE MC_Export ------------------------------
 (* Exports spec-defined spaces as ndjson (run by setup; see ../check). *)
-EXTENDS Gram, Text, ExpandFix, Json, IOUtils, SequencesExt
+EXTENDS Gram, Text, ExpandFix, Escape, Options, Json, IOUtils, SequencesExt
 
 What == IOEnv.VH_WHAT
 OutF == IOEnv.VH_OUT
@@ -22,12 +22,19 @@ TextRecs == LET S == TextsUpTo(Sig, NN) IN [q \in 1..Len(S) |-> [t |-> S[q]]]
 TplRecs == LET S == TextsUpTo(TplAlphabet, NN) IN [q \in 1..Len(S) |-> [id |-> q, tpl |-> S[q]]]
 FixRecs == [q \in 1..Len(Fixtures) |-> [pat |-> Fixtures[q].pat, text |-> Fixtures[q].text]]
 
+EscRecs == LET S == TextsUpTo(EscAlphabet, NN)
+           IN [q \in 1..Len(S) |-> [id |-> q, s |-> S[q], hay |-> Hay(S[q]), hosts |-> [h \in 1..NHosts |-> HostStr(h)]]]
+
+SizeRecs == << [pieces |-> SizePieces, hosts |-> SizeHosts, limits |-> SizeLimits] >>
+
 VARIABLE done
 Init == done = FALSE
 Next == /\ ~done /\ done' = TRUE
         /\ CASE What = "pats"  -> /\ ndJsonSerialize(OutF, PatRecs) /\ PrintT(<<"EXPORTED", Len(PatRecs)>>)
              [] What = "inject" -> /\ ndJsonSerialize(OutF, InjRecs) /\ PrintT(<<"EXPORTED", Len(InjRecs)>>)
              [] What = "templates" -> /\ ndJsonSerialize(OutF, TplRecs) /\ PrintT(<<"EXPORTED", Len(TplRecs)>>)
+             [] What = "escapes" -> /\ ndJsonSerialize(OutF, EscRecs) /\ PrintT(<<"EXPORTED", Len(EscRecs)>>)
+             [] What = "sizefix" -> /\ ndJsonSerialize(OutF, SizeRecs) /\ PrintT(<<"EXPORTED", Len(SizeRecs)>>)
              [] What = "fixtures" -> /\ ndJsonSerialize(OutF, FixRecs) /\ PrintT(<<"EXPORTED", Len(FixRecs)>>)
              [] What = "texts" -> /\ ndJsonSerialize(OutF, TextRecs) /\ PrintT(<<"EXPORTED", Len(TextRecs)>>)
 Spec == Init /\ [][Next]_done
